@@ -1205,30 +1205,37 @@ impl<'a> TLVSequenceTLVIter<'a> {
     }
 
     fn try_next(&mut self) -> Result<Option<TLV<'a>>, Error> {
-        let current = self.seq.current()?;
-        if current.is_empty() {
+        if self.seq.0.is_empty() {
             return Ok(None);
         }
 
-        self.advance()?;
+        let control = self.seq.control()?;
 
-        Ok(Some(TLV::new(current.tag()?, current.value()?)))
-    }
+        if control.value_type.is_container_end() {
+            control.confirm_container_end()?;
 
-    fn advance(&mut self) -> Result<(), Error> {
-        if self.nesting > 0 || !self.seq.0.is_empty() && !self.seq.control()?.is_container_end() {
+            if self.nesting == 0 {
+                // The end marker of the container whose elements we are iterating
+                return Ok(None);
+            }
+
+            // The end marker of a container nested inside the sequence
+            self.nesting -= 1;
             self.seq = self.seq.next_enter()?;
 
-            let control = self.seq.control()?;
-
-            if control.is_container_start() {
-                self.nesting += 1;
-            } else if control.is_container_end() {
-                self.nesting -= 1;
-            }
+            return Ok(Some(TLV::end_container()));
         }
 
-        Ok(())
+        let current = TLVElement::new(self.seq.0);
+        let tlv = TLV::new(current.tag()?, current.value()?);
+
+        if control.is_container_start() {
+            self.nesting += 1;
+        }
+
+        self.seq = self.seq.next_enter()?;
+
+        Ok(Some(tlv))
     }
 }
 
